@@ -47,7 +47,9 @@ theorem pgb_step (G : GCtx) (n : Nat) (hPE : ∀ m, m < n → PE G m) : PGB G n 
           obtain ⟨hfr, mem', hrun, hml⟩ := h1
           exact ⟨inScope_frame st st1 hfr, mem', hrun, hml⟩
         | error cerr =>
-          cases cerr <;> first | trivial | exact h1.elim | exact h1
+          cases cerr <;> first | trivial | exact h1.elim | exact h1 | skip
+          obtain ⟨hfr, mem', hT, hml⟩ := h1
+          exact ⟨inScope_frame st st1 hfr, mem', hT, hml⟩
 
 theorem cgE_infix (mod : String) (ρ φ : String → Option String) (sp ty op l r) (lm : LM)
     (h : Frag.isLogical op = false) :
@@ -159,7 +161,7 @@ theorem pe_step (G : GCtx) (hG : G.OK) (n : Nat) (hPE : ∀ m, m ≤ n → PE G 
         rcases her : evalExpr G.cfg n r st1 with ⟨r2, st2⟩
         rw [her] at h2
         cases r2 with
-        | error c2 => exact SimGE.error_after _ hrun1 h2
+        | error c2 => exact SimGE.error_after _ [⟨a, none⟩] hrun1 hfr1 hml1 h2
         | ok b =>
           obtain ⟨hfr2, mem2, hrun2, hml2⟩ := h2
           simp only []
@@ -259,7 +261,7 @@ theorem pe_step (G : GCtx) (hG : G.OK) (n : Nat) (hPE : ∀ m, m ≤ n → PE G 
             rcases hbt : inScope (evalBlock G.cfg n t) st1 with ⟨r2, st2⟩
             rw [hbt] at h2
             cases r2 with
-            | error c2 => exact SimGE.error_after _ hpre h2
+            | error c2 => exact SimGE.error_after _ [] hpre hfr1 hml1 h2
             | ok v =>
               obtain ⟨hfr2, mem2, hrun2, hml2⟩ := h2
               refine ⟨by rw [hfr2, hfr1], mem2, ((hpre.trans hrun2).trans (Runs.of_runsTo (RunsTo.of_exec1 (fun k =>
@@ -278,7 +280,7 @@ theorem pe_step (G : GCtx) (hG : G.OK) (n : Nat) (hPE : ∀ m, m ≤ n → PE G 
             rcases hbe : inScope (evalBlock G.cfg n eb) st1 with ⟨r2, st2⟩
             rw [hbe] at h2
             cases r2 with
-            | error c2 => exact SimGE.error_after _ hpre h2
+            | error c2 => exact SimGE.error_after _ [] hpre hfr1 hml1 h2
             | ok v =>
               obtain ⟨hfr2, mem2, hrun2, hml2⟩ := h2
               refine ⟨by rw [hfr2, hfr1], mem2, (hpre.trans hrun2).cast ?_, hml1.trans hml2⟩
@@ -350,8 +352,11 @@ theorem pe_step (G : GCtx) (hG : G.OK) (n : Nat) (hPE : ∀ m, m ≤ n → PE G 
           cases r2 with
           | error c2 =>
             cases c2 <;> first | trivial | exact h2.elim | skip
-            intro hk
-            exact hrun1.fatal (RunsF.call hA icall (h2 hk))
+            · -- the callee ends in an exception
+              obtain ⟨hfr2, mem2, hct, hml2⟩ := h2
+              exact ⟨frame_trans hfr1 hfr2, mem2, RunsT.of_call hA hrun1 icall hct, hml1.trans hml2⟩
+            · intro hk
+              exact hrun1.fatal (RunsF.call hA icall (h2 hk))
           | ok v =>
             obtain ⟨hfr2, mem2, hrc, hml2⟩ := h2
             refine ⟨by rw [hfr2, hfr1], mem2, (hrun1.trans (Runs.call hA icall hrc)).cast (by omega),
